@@ -1,4 +1,5 @@
 """C08 - external events exactly once, in order, at macrostep boundaries (DESIGN 4/C08)."""
+import re
 from .. import facts, cg, lock, path, cfg as cfgm, tab
 from ..facts import AnalysisBroken, strip, sub, locstr
 
@@ -9,7 +10,7 @@ READERS = {'front', 'empty', 'size', 'begin', 'end', 'cbegin', 'cend'}
 # who may mutate the queue, and how (FIFO: add at the back, take from the front)
 MUTATORS = {
     'uscxml::BasicEventQueue::enqueue': {'push_back'},
-    'uscxml::BasicEventQueue::deserialize': {'push_back'},
+    'uscxml::BasicEventQueue::deserialize': {'push_back', 'clear'},
     'uscxml::BasicEventQueue::dequeue': {'pop_front'},
     'uscxml::BasicEventQueue::reset': {'clear'},
     'uscxml::BasicDelayedEventQueue::reset': {'clear'},   # the delayed queue's reset also drops plain queued events
@@ -154,7 +155,7 @@ def macrostep_boundary(rep, fb, rule):
 
 def run(rep, tier):
     rep.rule('R08.1', 'lock set: every read or write of BasicEventQueue::_queue (class and subclasses) happens with that object\'s _mutex held (flow-sensitive lock sets, must-hold-on-entry across calls)')
-    rep.rule('R08.2', 'FIFO ends: the only mutators of _queue are push_back (enqueue, deserialize), pop_front (dequeue) and clear (reset)')
+    rep.rule('R08.2', 'FIFO ends: the only mutators of _queue are push_back (enqueue, deserialize), pop_front (dequeue) and clear (reset, and deserialize before it appends the snapshot)')
     rep.rule('R08.3', 'exactly once: on every path of dequeue(), an element is removed iff the copy taken from front() before the removal is returned')
     rep.rule('R08.4', 'no lost wake-up: enqueue pushes then notifies, both under the lock; every wait in dequeue is inside a loop whose condition re-reads _queue and waits on the queue\'s own mutex')
     rep.rule('R08.5', 'macrostep boundary: dequeueExternal is reached only after the SPONTANEOUS test failed and dequeueInternal returned no event; a step that took transitions sets SPONTANEOUS, and SPONTANEOUS is cleared only by a selection that found nothing (exact _flags relation)')
@@ -362,3 +363,28 @@ def run(rep, tier):
         ok = all(any(g0.dominates(i['id'], x['id']) for i in ints) for x in exts)
         rep.check(ok, 'R08.8', 'eventReady|error before wake-up', locstr(exts[0]), 'in the handler the error is %s the wake-up' % ('enqueued internally before' if ok else 'enqueued AFTER: the woken step finds the internal queue empty, blocks again and the error waits for the next unrelated external event'))
     rep.minimum('R08.8', found, 1, 'handlers of eventReady that enqueue the error and wake the session')
+    # ---- R08.11 / R08.12 (second audit)
+    restore_replaces(rep, fb, 'R08.12')
+    rep.rule('R08.11', 'events of one sender keep their order through the delayed queue: BasicDelayedEventQueue records the order in which delayed events were queued (a sequence number or an ordered container next to the per-event timers); independent libevent timers with the same deadline fire in heap order, not in send order')
+    dq11 = 'uscxml::BasicDelayedEventQueue'
+    flds = [fd for fd in fb.records.get(dq11, {}).get('fields', [])] + [fd for fd in fb.records.get(dq11 + '::callbackData', {}).get('fields', [])]
+    if not flds:
+        raise AnalysisBroken('fields of BasicDelayedEventQueue not in the fact base')
+    ordered = [fd['name'] for fd in flds if re.search(r'seq|order|serial|counter', fd['name'], re.I) or re.search(r'std::(multi)?map<.*(timeval|uint64|unsigned long|size_t|pair)', fd.get('t', '')) or 'std::deque' in fd.get('t', '') or 'std::list' in fd.get('t', '')]
+    rep.check(bool(ordered), 'R08.11', 'BasicDelayedEventQueue|send order', fb.fn(dq11 + '::enqueueDelayed').where(), 'the delayed queue %s' % (
+        'records the send order (%s)' % ', '.join(ordered) if ordered else 'keeps one independent timer per event and no record of the order of sends (fields: %s): four <send delay="50ms"> in one block are delivered e1 e4 ..' % ', '.join(fd['name'] for fd in flds)[:120]))
+
+
+def restore_replaces(rep, fb, rule):
+    """the queued events of the snapshot replace what is queued (C08 R08.12, shared with C14 R14.14)"""
+    rep.rule(rule, 'each event is processed exactly once across a restore: BasicEventQueue::deserialize empties the queue before it appends the events of the snapshot (the micro-steppers reset before they restore, the data model is re-initialised; a queue that appends runs the pending events twice after a roll-back to a snapshot)')
+    qd = fb.fn('uscxml::BasicEventQueue::deserialize')
+    g = cfgm.CFG(qd)
+    pushes = [n for n in qd.walk() if n['k'] == 'CXXMemberCallExpr' and n.get('callee', {}).get('q', '').split('::')[-1] in ('push_back', 'emplace_back') and n['id'] in g.pos]
+    clears = [n for n in qd.walk() if n['k'] == 'CXXMemberCallExpr' and n.get('callee', {}).get('q', '').split('::')[-1] in ('clear', 'swap') and any(
+        y['k'] == 'MemberExpr' and y.get('ref', {}).get('name') == '_queue' for y in sub(n['c'][0])) and n['id'] in g.pos] + [
+        n for n in qd.walk() if n.get('callee', {}).get('q', '').endswith('BasicEventQueue::reset') and n['id'] in g.pos]
+    rep.minimum(rule, len(pushes), 1, 'appends in BasicEventQueue::deserialize')
+    ok = bool(clears) and all(any(g.dominates(c_['id'], p_['id']) for c_ in clears) for p_ in pushes)
+    rep.check(ok, rule, 'BasicEventQueue::deserialize|replace', locstr(pushes[0]) if pushes else qd.where(), 'the events of the snapshot %s' % (
+        'replace the queued ones' if ok else 'are APPENDED to what is queued: receive(a); receive(b); s = serialize(); deserialize(s) processes a b a b'))
